@@ -727,6 +727,12 @@ def apply_contract(I: Interp, con: Contract, finfo: FuncInfo, selfv, args, kwarg
     sf.locals["result"] = result
     for f in preserve_formulas(I, con.preserves, sf, old, rewrite=True):
         st.assume(f)
+    # the events the call logs are part of the post-state the ensures clauses describe
+    for kind, evargs, cond in pending_events:
+        append_event(st, kind, evargs, cond)
+    for ev in con.emits_after:
+        cond = spec_bool(I, ev[2], sf) if len(ev) > 2 and ev[2] else None
+        append_event(st, ev[0], [I.to_sv(ev_spec(I, a, sf)).t for a in ev[1]], cond)
     st.old_stack.append(old)
     st.fresh_base.append(old_alloc)
     try:
@@ -737,10 +743,6 @@ def apply_contract(I: Interp, con: Contract, finfo: FuncInfo, selfv, args, kwarg
         st.fresh_base.pop()
     if not st.guards and not st.consistent():
         raise Refuse(f"contract of {finfo.key} is inconsistent with the state at its call site (line {line}): vacuous proof refused")
-    for kind, evargs, cond in pending_events:
-        append_event(st, kind, evargs, cond)
-    for ev in con.emits_after:
-        append_event(st, ev[0], [I.to_sv(ev_spec(I, a, sf)).t for a in ev[1]])
     st.log.append(f"contract {finfo.key}")
     st.call_records.append({"callee": finfo.key, "line": line, "result": result, "heap_after": dict(st.heap)})
     return result
@@ -1083,4 +1085,7 @@ def list_extend(I: Interp, l: SV, other):
     if isinstance(other, SV) and T.strip_opt(other.ty).k in ("set", "dict") or isinstance(other, PIter):
         from .comp import build_collection
         return list_extend(I, l, build_collection(I, "list", [other], {}, None))
+    if isinstance(other, SV) and T.strip_opt(other.ty).k == "any":
+        I.st.log.append("list.extend(value of undeclared type): taken to be a list")
+        return list_extend(I, l, SV(other.t, T.LIST(T.ANY)))
     raise Refuse("list.extend with non-list")
